@@ -343,6 +343,9 @@ func (c *XAConn) Commit(ctx context.Context) error {
 	if err := c.xaResource.XAPrepare(ctx, c.xaBranchXid.String()); err != nil {
 		return c.commitErrorHandle(ctx, err)
 	}
+	// the branch is prepared: this session is free for the next branch
+	c.prepareTime = time.Now()
+	c.xaActive = false
 	return nil
 }
 
